@@ -42,12 +42,13 @@ type PathStats struct {
 	StubsHit     map[string]int
 	Assumptions  map[string]bool
 	Samples      []string
+	UnknownIDs   map[string]int
 }
 
 func NewPathStats() *PathStats { return newPathStats() }
 
 func newPathStats() *PathStats {
-	return &PathStats{Reaches: map[string]int{}, FuncsEntered: map[string]bool{}, StubsHit: map[string]int{}, Assumptions: map[string]bool{}}
+	return &PathStats{UnknownIDs: map[string]int{}, Reaches: map[string]int{}, FuncsEntered: map[string]bool{}, StubsHit: map[string]int{}, Assumptions: map[string]bool{}}
 }
 
 func (p *PathStats) Merge(o *PathStats) {
@@ -61,6 +62,9 @@ func (p *PathStats) Merge(o *PathStats) {
 	p.UnwindHits += o.UnwindHits
 	for k, v := range o.Reaches {
 		p.Reaches[k] += v
+	}
+	for k, v := range o.UnknownIDs {
+		p.UnknownIDs[k] += v
 	}
 	for k := range o.FuncsEntered {
 		p.FuncsEntered[k] = true
@@ -366,6 +370,36 @@ func (pc *pathCtx) tryViolation(kind, id, msg, pos, extra string) string {
 	if r == "sat" {
 		v := Violation{Kind: kind, ID: id, Msg: msg, Pos: pos, Model: pc.model(), Nondets: append([]NondetVar{}, pc.nondets...), Prefix: append([]int64{}, pc.taken...)}
 		pc.viol = append(pc.viol, v)
+	}
+	if r == "unknown" {
+		// retry ladder, step 1: the complete nlsat procedure on the same context (pure NRA only)
+		r1 := pc.solver.CheckTactic(fmt.Sprintf("(try-for qfnra-nlsat %d)", 2*pc.solver.TimeoutMs))
+		pc.stats.StubsHit["retry:nlsat:"+r1]++
+		if r1 == "unsat" {
+			return "unsat"
+		}
+		if r1 == "sat" {
+			v := Violation{Kind: kind, ID: id, Msg: msg, Pos: pos, Model: pc.model(), Nondets: append([]NondetVar{}, pc.nondets...), Prefix: append([]int64{}, pc.taken...)}
+			pc.viol = append(pc.viol, v)
+			return "sat"
+		}
+		// step 2: the same context in the other solvers
+		for _, bin := range []string{"z3-new", "cvc5"} {
+			if bin == pc.solver.Bin {
+				continue
+			}
+			r2, model := pc.solver.RetryElsewhere(bin, pc.nondets)
+			pc.stats.StubsHit["retry:"+bin+":"+r2]++
+			if r2 == "unsat" {
+				return "unsat"
+			}
+			if r2 == "sat" {
+				v := Violation{Kind: kind, ID: id, Msg: msg, Pos: pos, Model: model, Nondets: append([]NondetVar{}, pc.nondets...), Prefix: append([]int64{}, pc.taken...)}
+				pc.viol = append(pc.viol, v)
+				return "sat"
+			}
+		}
+		pc.stats.UnknownIDs[id]++
 	}
 	return r
 }
